@@ -12,7 +12,7 @@ from props.c07 import row_to_cfg
 PID = "C10"
 LEVEL = "exploration"
 RULE = (
-    "Hypothesis draws (kernel x resampler x clustering x metric mode x evaluation mode x d x zero-likelihood region) x case seed x shift c "
+    "Hypothesis draws (kernel x resampler x clustering x metric mode {ESS, vv 0.05/0.3/2} x evaluation mode x d x zero-likelihood region x likelihood width factor {1, 0.1, 0.03}) x case seed x shift c "
     "in +-[1e-3,1e3] (log-uniform, both signs); run A uses logL, run B uses logL+c under the same seed. "
     "Non-trivial = >=3 annealing iterations and |c|>=1. distinct = case hash."
 )
@@ -26,15 +26,20 @@ ASSUMPTIONS = [
 @st.composite
 def cases(draw):
     sign = draw(st.sampled_from([-1.0, 1.0]))
+    metric = draw(st.sampled_from(["ess", "ess", "vv0.3", "vv2", "vv0.05"]))
+    # an ambitious volume-variation target on a likelihood much narrower than the prior makes the temperature steps shrink to the
+    # beta tolerance (bisections then end on the tolerance, not on the metric): generate that corner on purpose
+    narrow = draw(st.sampled_from([0.1, 0.1, 0.03])) if metric == "vv0.05" else draw(st.sampled_from([1.0, 1.0, 1.0, 0.1]))
     return {"row": {"kernel": draw(st.sampled_from(["tpcn", "rwm"])), "resample": draw(st.sampled_from(["mult", "syst"])),
-                    "clustering": draw(st.booleans()), "metric": draw(st.sampled_from(["ess", "vv0.3", "vv2"])),
+                    "clustering": draw(st.booleans()), "metric": metric, 
                     "mode": draw(st.sampled_from(["vector", "scalar", "blobs"])), "zero": draw(st.booleans()), "d": draw(st.integers(1, 3))},
-            "c": sign * 10.0 ** draw(st.floats(-3.0, 3.0)), "seed": draw(st.integers(0, 2**31 - 3))}
+            "c": sign * 10.0 ** draw(st.floats(-3.0, 3.0)), "seed": draw(st.integers(0, 2**31 - 3)), "narrow": narrow}
 
 
-def one_run(row, seed, shift):
+def one_run(row, seed, shift, narrow=1.0):
     d = row["d"]
     spec = simple_target_spec(np.random.default_rng(seed), d, row["mode"], zero=row["zero"])
+    spec["width"] = [w * narrow for w in spec["width"]]  # narrow likelihoods: many tiny temperature steps, bisections end on the beta tolerance
     spec["shift"] = shift
     t = Target.from_spec(spec)
     np.random.seed(seed)
@@ -85,8 +90,8 @@ def execute(case):
     res = None
     for attempt in (0, 1):
         seed = int(case["seed"]) + attempt
-        A = one_run(row, seed, 0.0)
-        B = one_run(row, seed, c)
+        A = one_run(row, seed, 0.0, case.get("narrow", 1.0))
+        B = one_run(row, seed, c, case.get("narrow", 1.0))
         msg, kind = compare(A, B, c)
         if msg is None:
             res = A
@@ -103,5 +108,5 @@ def execute(case):
             "sample": {"row": row, "c": c, "iterations": res["T"], "final_logz": res["final"]}}
 
 
-CHECKS = [Check("shift", cases, execute, n={"quick": 96, "thorough": 1600}, shards={"quick": 16, "thorough": 16},
+CHECKS = [Check("shift", cases, execute, n={"quick": 48, "thorough": 1200}, shards={"quick": 16, "thorough": 16},
                 shrink={"quick": False, "thorough": True})]
